@@ -140,6 +140,24 @@ where
 fn apply_mix(c: &mut Case) {
     if let Some((which, x, y)) = c.mix {
         let pt = G::Point((x as i64, y as i64));
+        if which & 4 == 4 {
+            // degenerate P (differential only): a ring split into two open line strings that chain into a loop (members of
+            // a collection touching at their end points), or a Rect collapsed to a segment
+            let ring: Option<Vec<crate::exact::C>> = match &c.p {
+                G::LineString(v) if v.len() >= 4 && v.first() == v.last() => Some(v.clone()),
+                G::Polygon(p) if p.ext.len() >= 4 => Some(p.ext.clone()),
+                G::MultiPolygon(v) if !v.is_empty() && v[0].ext.len() >= 4 => Some(v[0].ext.clone()),
+                _ => None,
+            };
+            c.p = match (ring, c.p.bbox()) {
+                (Some(r), _) => {
+                    let cut = 1 + (x.unsigned_abs() as usize) % (r.len() - 2);
+                    G::Coll(vec![G::LineString(r[..=cut].to_vec()), G::LineString(r[cut..].to_vec())])
+                }
+                (None, Some(((x0, y0), (x1, y1)))) => if y & 1 == 0 { G::Rect((x0, y0), (x1, y0)) } else { G::Rect((x0, y0), (x0, y1)) },
+                (None, None) => c.p.clone(),
+            };
+        }
         if which & 1 == 1 && !matches!(c.p, G::Coll(_)) {
             c.p = G::Coll(vec![c.p.clone(), pt.clone()]);
         }
@@ -164,7 +182,7 @@ impl Property for C17 {
             proptest::collection::vec((any::<u8>(), 0u8..7, 0u8..3).prop_map(|(partner, mode, reps)| Step { partner, mode, reps }), 1..=maxs),
             xf_strategy(),
             any::<bool>(),
-            proptest::option::weighted(0.2, (1u8..4, -3i8..16, -3i8..16)),
+            proptest::option::weighted(0.25, (1u8..8, -3i8..16, -3i8..16)),
         )
             .prop_map(|(Scene { a, partners }, steps, xf, concrete, mix)| {
                 let mut c = Case { p: a, partners, steps, xf, concrete, mix, trusted: true };
